@@ -16,6 +16,7 @@ lang_kernel!(c01_false_a6, any_ascii, 6, 8, false_, r_false);
 /// special-float: language and value (sign of inf, sign bit of nan)
 #[kani::proof]
 #[kani::unwind(7)]
+#[kani::stub(core::str::from_utf8, stub_from_utf8)]
 pub fn c02_special_float_a5() {
     let (buf, len) = any_ascii::<5>();
     let s = &buf[..len];
@@ -69,6 +70,7 @@ macro_rules! integer_prefixed {
         #[kani::proof]
         #[kani::unwind(6)]
         #[kani::stub(str::replace, stub_replace_underscore)]
+        #[kani::stub(core::str::from_utf8, stub_from_utf8)]
         pub fn $harness() {
             let (tail, tlen) = any_ascii::<3>();
             let mut buf = [0u8; 5];
@@ -92,6 +94,7 @@ integer_prefixed!(c02_integer_bin_a5, b'b');
 #[kani::proof]
 #[kani::unwind(6)]
 #[kani::stub(str::replace, stub_replace_underscore)]
+#[kani::stub(core::str::from_utf8, stub_from_utf8)]
 pub fn c02_integer_dec_a4() {
     let (buf, len) = any_ascii::<4>();
     kani::assume(!(len >= 2 && buf[0] == b'0' && (buf[1] == b'x' || buf[1] == b'o' || buf[1] == b'b')));
@@ -101,3 +104,59 @@ pub fn c02_integer_dec_a4() {
     kani::cover!(!ok && len == 3, "rejects");
 }
 
+
+// ---- i64 range edge, every base: prefix concrete, all digits symbolic -------------------------
+
+fn any_in(lo: u8, hi: u8) -> u8 {
+    let d: u8 = kani::any();
+    kani::assume(d >= lo && d <= hi);
+    d
+}
+
+fn any_hexdigit() -> u8 {
+    let d: u8 = kani::any();
+    kani::assume(refmodel::classes::r_hexdig(d));
+    d
+}
+
+/// `0x` + 16 symbolic hex digits: every 64-bit pattern; accepted iff <= i64::MAX, value exact
+#[kani::proof]
+#[kani::unwind(20)]
+#[kani::stub(str::replace, stub_replace_underscore)]
+#[kani::stub(core::str::from_utf8, stub_from_utf8)]
+pub fn c11_integer_hex_edge16() {
+    let mut buf = [0u8; 18];
+    buf[0] = b'0';
+    buf[1] = b'x';
+    let mut i = 0;
+    while i < 16 {
+        buf[2 + i] = any_hexdigit();
+        i += 1;
+    }
+    let ok = integer_differential(&buf[..]);
+    kani::cover!(ok && buf[2] == b'7', "accepts up to 0x7FFF...");
+    kani::cover!(!ok && buf[2] == b'8', "rejects from 0x8000... upwards");
+}
+
+/// `0o` + 22 symbolic octal digits (66 bits)
+#[kani::proof]
+#[kani::unwind(26)]
+#[kani::stub(str::replace, stub_replace_underscore)]
+#[kani::stub(core::str::from_utf8, stub_from_utf8)]
+pub fn c11_integer_oct_edge22() {
+    let mut buf = [0u8; 24];
+    buf[0] = b'0';
+    buf[1] = b'o';
+    let mut i = 0;
+    while i < 22 {
+        buf[2 + i] = any_in(b'0', b'7');
+        i += 1;
+    }
+    let ok = integer_differential(&buf[..]);
+    kani::cover!(ok && buf[2] == b'0' && buf[3] == b'7', "accepts 0o0777...");
+    kani::cover!(!ok && buf[2] == b'1', "rejects 2^63 and above");
+}
+
+// Binary (64 digits, even with only 8 of them symbolic) and decimal (19 digits, even with only 4
+// symbolic) edge shapes were measured too: neither finishes (binary > 1500 s; decimal aborts at
+// ~975 s with > 24 GB).  The i64 edge is therefore decided for the hex and octal arms only.
